@@ -164,7 +164,7 @@ let model (e : env) (fields : string array) : string =
         [ estrs (lines t); estrs (split_lf t); estrs (split_crlf t); estrs (split_terminator_lf t);
           es (trim_end_sp t); es (trim t); es (trim_end t); dec_of_n (blen t);
           (if ends_with t [lF] then "1" else "0"); (if ends_with t [cR; lF] then "1" else "0") ]
-  | "ffx" | "ofx" -> "IMPL-ONLY"
+  | "ffx" | "ofx" | "ofu" -> "IMPL-ONLY"
   | op -> "UNKNOWN-OP " ^ op
 
 (* "of": smawk decides ties, and outside C03's precondition it may even miss the
